@@ -35,6 +35,11 @@ W[("C01", "shorthand_only_flag_in_long_form")] = {"op": "parse", "in": {"tree": 
 W[("C07", "shorthand_only_flag_in_long_form")] = {"op": "parse", "in": {"tree": T5, "words": ["--delim", "v", ""]}}
 T6 = {"cmds": [_cmd("root", -1, [_flag("color", ""), dict(_flag("files", "f", "stringArray"), nargs=-1)])]}
 W[("C01", "nargs_any_flag_before_pending_flag")] = {"op": "parse", "in": {"tree": T6, "words": ["--files", "--color", ""]}}
+F7 = [dict(_flag("opt", "o"), mode=0), dict(_flag("delim", "delim"), mode=1)]
+W[("C01", "nonposix_short_empty_attached_lookup")] = {"op": "lookuparg", "in": {"flags": F7, "arg": "-o="}}
+W[("C01", "shorthand_only_flag_in_long_form_lookup")] = {"op": "lookuparg", "in": {"flags": F7, "arg": "--delim"}}
+T7 = {"cmds": [_cmd("root", -1, F7, npos=2)]}
+W[("C01", "nonposix_short_empty_attached")] = {"op": "parse", "in": {"tree": T7, "words": ["-o=", ""]}}
 W[("C20", "complete_protocol_positional_from_dash_slot")] = {"op": "ccomplete", "in": {"tree": T2, "words": [""], "cobraSide": False}}
 _E = lambda shell, word, desc: {"op": "entry", "in": {"tree": T1, "variant": 6, "ancestor": "fish", "args": [shell, "root", word], "env": {}, "desc": desc}}
 W[("C18", "zsh_framing_control_chars")] = _E("zsh", "-\x01", "plain")
